@@ -6,6 +6,7 @@ Scope: invvar given, x2 = None, no requiren/oldset, groupbadpix = False (the onl
 import PydlVerif.Model.IterFit
 import PydlVerif.Props.C09
 import PydlVerif.Props.C17
+import PydlVerif.Lemmas.IterFit
 import Mathlib.Data.List.Sort
 namespace PydlVerif.C10
 open PydlVerif PydlVerif.BSpline PydlVerif.BSplineFit PydlVerif.IterFit
@@ -194,6 +195,95 @@ theorem iterCore_mask (K : Kernels α) (r32 : α → α) (p : Params α) (xw yw 
   cases h
   exact iterLoop_mask_le K p xw yw iw _ _ _ hloop (by simp [hl])
 
+/-- **(d) the whole loop is equivariant** -/
+theorem iterLoop_equiv (Kn : Kernels α) (p : Params α) (τ : List ℕ) (xw yw iw : List α)
+    (hτ : τ.Perm (List.range xw.length)) (hy : yw.length = xw.length) (hi : iw.length = xw.length)
+    (hfit : FitEquiv Kn τ xw yw) :
+    ∀ (fuel : ℕ) (s : St α), s.maskwork.length = xw.length →
+      iterLoop Kn p xw (reidx τ yw 0) (reidx τ iw 0) fuel (stMap τ s) = (iterLoop Kn p xw yw iw fuel s).map (outMap τ) := by
+  intro fuel
+  induction fuel with
+  | zero => intro s _; rfl
+  | succ f ih =>
+    intro s hm
+    rw [iterLoop_succ, iterLoop_succ]
+    have e1 : (stMap τ s).error = s.error := rfl
+    have e2 : (stMap τ s).qdone = s.qdone := rfl
+    have e3 : (stMap τ s).iiter = s.iiter := rfl
+    rw [e1, e2, e3]
+    by_cases hc : (s.error ≠ 0 ∨ s.qdone = false) ∧ s.iiter ≤ p.maxiter
+    · rw [if_pos hc, if_pos hc, iterBody_equiv Kn p τ xw yw iw s hτ hy hi hm hfit]
+      cases hb : iterBody Kn p xw yw iw s with
+      | error e => rfl
+      | ok o =>
+        cases o with
+        | failed b => rfl
+        | done s1 =>
+          have hl := (iterBody_mask_le Kn p xw yw iw s s1 hb (by rw [hm, hy])).1
+          have := ih s1 (by rw [hl, hy])
+          simp only [bind, Except.bind, Except.map, outMap] at this ⊢
+          exact this
+    · rw [if_neg hc, if_neg hc]; rfl
+
+/-- `iterCore` as a function of the initial mask `invvar > 0` -/
+def iterCoreFrom (K : Kernels α) (r32 : α → α) (p : Params α) (xw yw iw : List α) (mask0 : List Bool) :
+    R (BS α × Option (List Bool)) := do
+  if !(mask0.any id) then valueError else
+  let goodx := ((xw.zip mask0).filter (fun xm => xm.2)).map (fun xm => xm.1)
+  let knots ← mkKnots r32 goodx p.nord p.opts
+  let sset : BS α := { nord := p.nord, breakpoints := knots.toArray, mask := Array.replicate knots.length true,
+                       coeff := Array.replicate (knots.length - p.nord) 0 }
+  if countTrue mask0 < p.nord then pure (sset, none) else
+  let s0 : St α := { sset := sset, maskwork := mask0, yfit := List.replicate xw.length 0, error := 0, qdone := false, iiter := 0 }
+  match ← iterLoop K p xw yw iw (p.maxiter + 1) s0 with
+  | .failed b => pure (b, none)
+  | .done s => pure (s.sset, some s.maskwork)
+
+theorem iterCore_eq_from (K : Kernels α) (r32 : α → α) (p : Params α) (xw yw iw : List α) :
+    iterCore K r32 p xw yw iw = iterCoreFrom K r32 p xw yw iw (iw.map (fun v => decide (0 < v))) := rfl
+
+/-- **(core) the sorted core of `iterfit` is equivariant** under a permutation `τ` of the sorted positions, given that
+`fit` on `xw` does not see `τ` (`FitEquiv`, proved for sorted `xw` fixed by `τ` over an ordered field: `fitEquiv_sorted`)
+and that the good abscissae are the same list (`goodx_eq`) -/
+theorem iterCore_equiv (Kn : Kernels α) (r32 : α → α) (p : Params α) (τ : List ℕ) (xw yw iw : List α)
+    (hτ : τ.Perm (List.range xw.length)) (hy : yw.length = xw.length) (hi : iw.length = xw.length)
+    (hfit : FitEquiv Kn τ xw yw)
+    (hgood : ∀ m : List Bool, m.length = xw.length →
+      ((xw.zip (reidx τ m true)).filter (fun xm => xm.2)).map (fun xm => xm.1)
+        = ((xw.zip m).filter (fun xm => xm.2)).map (fun xm => xm.1)) :
+    iterCore Kn r32 p xw (reidx τ yw 0) (reidx τ iw 0) =
+      (iterCore Kn r32 p xw yw iw).map (fun r => (r.1, r.2.map (fun mw => reidx τ mw true))) := by
+  have hmem := perm_mem_lt τ _ hτ
+  rw [iterCore_eq_from, iterCore_eq_from]
+  rw [← reidx_map τ iw (fun v => decide (0 < v)) 0 true (by rw [hi]; exact hmem)]
+  generalize hm0 : iw.map (fun v => decide (0 < v)) = m0
+  have hml : m0.length = xw.length := by rw [← hm0, List.length_map, hi]
+  have hmp : (reidx τ m0 true).Perm m0 := reidx_perm τ m0 true (by rw [hml]; exact hτ)
+  unfold iterCoreFrom
+  simp only [hmp.any_eq, hgood m0 hml, countTrue_perm _ _ hmp]
+  by_cases hany : (!(m0.any id)) = true
+  · rw [if_pos hany, if_pos hany]; rfl
+  rw [if_neg hany, if_neg hany]
+  cases mkKnots r32 (((xw.zip m0).filter (fun xm => xm.2)).map (fun xm => xm.1)) p.nord p.opts with
+  | error e => rfl
+  | ok knots =>
+    simp only [bind, Except.bind, pure, Except.pure, Except.map]
+    by_cases hc : countTrue m0 < p.nord
+    · rw [if_pos hc, if_pos hc]; rfl
+    rw [if_neg hc, if_neg hc]
+    have := iterLoop_equiv Kn p τ xw yw iw hτ hy hi hfit (p.maxiter + 1)
+      { sset := { nord := p.nord, breakpoints := knots.toArray, mask := Array.replicate knots.length true,
+                  coeff := Array.replicate (knots.length - p.nord) 0 },
+        maskwork := m0, yfit := List.replicate xw.length 0, error := 0, qdone := false, iiter := 0 } hml
+    simp only [stMap] at this
+    rw [this]
+    cases iterLoop Kn p xw yw iw (p.maxiter + 1) _ with
+    | error e => rfl
+    | ok o =>
+      cases o with
+      | failed b => rfl
+      | done s => rfl
+
 /-- `yy[xsort] = v` for Boolean arrays (C08 `unsort`) -/
 theorem unsort_bool (perm : List ℕ) (m : List Bool) (hperm : perm.Perm (List.range m.length)) (j : ℕ) (hj : j < perm.length) :
     (unsort perm m).length = m.length ∧ (unsort perm m)[perm[j]]? = m[j]? := by
@@ -264,6 +354,20 @@ theorem maxiter_zero (K : Kernels α) (p : Params α) (xw yw iw : List α) (s0 :
         | .done s' => pure (.done s')) := by
   rw [hm, iterLoop_succ, if_pos ⟨Or.inr hq, by omega⟩]
   rfl
+
+/-- masks only decrease: a point that is False after some pass is False in the mask the loop ends with -/
+theorem false_stays_false (K : Kernels α) (p : Params α) (xw yw iw : List α) (fuel : ℕ) (s sf : St α) (j : ℕ)
+    (hloop : iterLoop K p xw yw iw fuel s = .ok (.done sf)) (hlen : s.maskwork.length = yw.length) (hj : j < yw.length)
+    (hf : s.maskwork[j]? = some false) : sf.maskwork[j]? = some false := by
+  obtain ⟨hl, hle⟩ := iterLoop_mask_le K p xw yw iw fuel s sf hloop hlen
+  have hjf : j < sf.maskwork.length := by omega
+  rw [List.getElem?_eq_getElem hjf]
+  cases hb : sf.maskwork[j] with
+  | false => rfl
+  | true =>
+    have := hle j (by rw [List.getElem?_eq_getElem hjf, hb])
+    rw [hf] at this
+    cases this
 
 end loop
 /-! ## weights and `qdone` over an ordered field -/
@@ -434,6 +538,32 @@ theorem work_eq (l : List K) (d0 Z : K) (σ perm perm' : List ℕ) (_hσl : σ.l
   rw [List.getElem?_eq_getElem h2]
   rfl
 
+
+local notation "ZK" => (@OfNat.ofNat _ 0 (@Scalar.instOfNat _ (fieldScalar _) 0))
+
+/-- **iterCore_perm_ties (core)**: on sorted work abscissae `xw`, re-indexing `(yw, iw)` by a permutation `τ` of the sorted
+positions that fixes `xw` (i.e. that moves points only within groups of tied abscissae) leaves the spline object
+unchanged and re-indexes the working mask by `τ` (errors included) -/
+theorem iterCore_perm_ties (Kn : Kernels K) (r32 : K → K) (p : Params K) (τ : List ℕ) (xw yw iw : List K)
+    (hτ : τ.Perm (List.range xw.length)) (hs : xw.Pairwise (· ≤ ·)) (hx : reidx τ xw ZK = xw)
+    (hy : yw.length = xw.length) (hi : iw.length = xw.length) :
+    iterCoreK Kn r32 p xw (reidx τ yw ZK) (reidx τ iw ZK) =
+      (iterCoreK Kn r32 p xw yw iw).map (fun r => (r.1, r.2.map (fun mw => reidx τ mw true))) :=
+  @iterCore_equiv K (fieldScalar K) Kn r32 p τ xw yw iw hτ hy hi (fitEquiv_sorted Kn τ xw yw hτ hs hx)
+    (fun m hm => goodx_eq τ xw m hτ hs hx hm)
+
+/-- position of `a` in `perm`, read back -/
+theorem reidx_idxOf {β : Type} (perm : List ℕ) (l : List β) (d e : β) (a : ℕ) (ha : a ∈ perm) :
+    (reidx perm l d).getD (perm.idxOf a) e = l.getD a d := by
+  have h1 : perm.idxOf a < perm.length := List.idxOf_lt_length_of_mem ha
+  rw [reidx_getD perm l d e _ h1, getD_lt perm 0 _ h1, List.getElem_idxOf]
+
+theorem map_idxOf_self (perm : List ℕ) (hnd : perm.Nodup) : perm.map (fun a => perm.idxOf a) = List.range perm.length := by
+  apply List.ext_getElem (by simp)
+  intro i h1 h2
+  simp only [List.getElem_map, List.getElem_range]
+  exact hnd.idxOf_getElem i _
+
 /-- **iterfit_perm**: for distinct abscissae (the sorted list is strictly increasing) and ANY sorting permutations
 `perm`, `perm'` that `argsort` may return for the data and for the permuted data: permuting `(x, y, invvar)` by `σ` leaves the
 spline object unchanged and permutes the returned mask identically, `outmask' = outmask ∘ σ` (errors included). -/
@@ -500,6 +630,188 @@ theorem iterfit_perm (Kn : Kernels K) (r32 : K → K) (p : Params K) (xs ys ivs 
       · rw [List.getElem?_eq_none (by rw [(unsort_bool perm' mw hpermw' 0 (by omega)).1, hml, hpl]; omega),
           List.getElem?_eq_none (by rw [List.length_map, hσl]; omega)]
 
+/-- **iterfit_perm_ties**: `iterfit_perm` WITHOUT the hypothesis of distinct abscissae.  For data with tied abscissae
+and ANY sorting permutations `perm`, `perm'` that `argsort` may return for the data and for the permuted data (they may
+order tied points differently): permuting `(x, y, invvar)` by `σ` leaves the spline object unchanged and permutes the
+returned mask identically, `outmask' = outmask ∘ σ` (errors included).  Exact field arithmetic (the sums of `fit` are
+order-independent); kernels arbitrary. -/
+theorem iterfit_perm_ties (Kn : Kernels K) (r32 : K → K) (p : Params K) (xs ys ivs : List K) (σ perm perm' : List ℕ)
+    (hy : ys.length = xs.length) (hiv : ivs.length = xs.length)
+    (hσ : σ.Perm (List.range xs.length)) (hperm : perm.Perm (List.range xs.length))
+    (hperm' : perm'.Perm (List.range xs.length))
+    (hs : (perm.map (fun i => xs.getD i 0)).Pairwise (· ≤ ·))
+    (hs' : (perm'.map (fun i => (σ.map (fun i => xs.getD i 0)).getD i 0)).Pairwise (· ≤ ·)) :
+    iterfitK Kn r32 p (σ.map (fun i => xs.getD i 0)) (σ.map (fun i => ys.getD i 0)) (σ.map (fun i => ivs.getD i 0)) perm' =
+      (iterfitK Kn r32 p xs ys ivs perm).map (fun r => (r.1, σ.map (fun i => r.2.getD i true))) := by
+  have hσl : σ.length = xs.length := by rw [hσ.length_eq, List.length_range]
+  have hpl : perm.length = xs.length := by rw [hperm.length_eq, List.length_range]
+  have hpl' : perm'.length = xs.length := by rw [hperm'.length_eq, List.length_range]
+  have hσm : ∀ i ∈ σ, i < xs.length := fun i hi => List.mem_range.1 ((hσ.mem_iff).1 hi)
+  have hpm : ∀ i ∈ perm', i < σ.length := fun i hi => by rw [hσl]; exact List.mem_range.1 ((hperm'.mem_iff).1 hi)
+  rw [iterfit_eq, iterfit_eq]
+  simp only [List.length_map, hσl, hy, hiv, ne_eq, not_true_eq_false, if_false]
+  by_cases hn : xs.length ≤ 1
+  · rw [if_pos hn, if_pos hn]; rfl
+  rw [if_neg hn, if_neg hn]
+  -- ρ = the order in which the permuted run visits the ORIGINAL points
+  obtain ⟨ρ, hρdef⟩ : ∃ ρ, ρ = perm'.map (fun i => σ.getD i 0) := ⟨_, rfl⟩
+  have hρ : ρ.Perm (List.range xs.length) := by
+    have := hperm'.map (fun i => σ.getD i 0)
+    rw [← hσl, range_map_getD] at this
+    rw [hρdef, ← hσl]; exact this.trans (by rw [hσl]; exact hσ)
+  have hρl : ρ.length = xs.length := by rw [hρ.length_eq, List.length_range]
+  rw [work_eq xs 0 _ σ ρ perm' hσl hσm hpm hρdef,
+    work_eq ys 0 _ σ ρ perm' (by rw [hσl, hy]) (by rw [hy]; exact hσm) hpm hρdef,
+    work_eq ivs 0 _ σ ρ perm' (by rw [hσl, hiv]) (by rw [hiv]; exact hσm) hpm hρdef]
+  rw [work_eq xs 0 0 σ ρ perm' hσl hσm hpm hρdef] at hs'
+  simp only [C08.sc_zero]
+  -- τ = where the permuted run's j-th sorted point sits in the original run's sorted order
+  have hnd : perm.Nodup := hperm.nodup_iff.2 List.nodup_range
+  have hρmem : ∀ a ∈ ρ, a ∈ perm := fun a ha => (hperm.mem_iff).2 ((hρ.mem_iff).1 ha)
+  obtain ⟨τ, hτdef⟩ : ∃ τ, τ = ρ.map (fun a => perm.idxOf a) := ⟨_, rfl⟩
+  have hτ : τ.Perm (List.range xs.length) := by
+    have := (hρ.trans hperm.symm).map (fun a => perm.idxOf a)
+    rw [map_idxOf_self perm hnd, hpl] at this
+    rw [hτdef]; exact this
+  have hτl : τ.length = xs.length := by rw [hτ.length_eq, List.length_range]
+  have hre : ∀ l : List K, ρ.map (fun i => l.getD i 0) = reidx τ (perm.map (fun i => l.getD i 0)) 0 := by
+    intro l
+    rw [hτdef]
+    unfold reidx
+    rw [List.map_map]
+    apply List.map_congr_left
+    intro a ha
+    exact (reidx_idxOf perm l 0 0 a (hρmem a ha)).symm
+  have hxw : ρ.map (fun i => xs.getD i 0) = perm.map (fun i => xs.getD i 0) :=
+    List.Perm.eq_of_pairwise (le := (· ≤ ·)) (fun a b _ _ hab hba => le_antisymm hab hba) hs' hs
+      ((map_getD_perm xs 0 ρ hρ).trans (map_getD_perm xs 0 perm hperm).symm)
+  have hx : reidx τ (perm.map (fun i => xs.getD i 0)) 0 = perm.map (fun i => xs.getD i 0) := (hre xs).symm.trans hxw
+  have hcore := iterCore_perm_ties Kn r32 p τ (perm.map (fun i => xs.getD i 0)) (perm.map (fun i => ys.getD i 0))
+    (perm.map (fun i => ivs.getD i 0)) (by rw [List.length_map, hpl]; exact hτ) hs
+    (by simp only [C08.sc_zero]; exact hx) (by simp) (by simp)
+  simp only [C08.sc_zero] at hcore
+  rw [hxw, hre ys, hre ivs, hcore]
+  cases hc : iterCoreK Kn r32 p _ _ _ with
+  | error e => rfl
+  | ok v =>
+    obtain ⟨sset, m⟩ := v
+    cases m with
+    | none =>
+      simp only [Except.map, finish, Option.map_none]
+      congr 2
+      rw [← hσl]
+      apply List.ext_getElem (by simp)
+      intro i h1 h2
+      simp only [List.getElem_replicate, List.getElem_map, List.getD_eq_getElem?_getD, List.getElem?_replicate]
+      split <;> rfl
+    | some mw =>
+      simp only [Except.map, finish, Option.map_some]
+      congr 2
+      obtain ⟨hml, _⟩ := @iterCore_mask K (fieldScalar K) Kn r32 p _ _ _ sset mw (by simp) hc
+      simp only [List.length_map] at hml
+      have hpermw : perm.Perm (List.range mw.length) := by rw [hml, hpl]; exact hperm
+      have hpermw' : perm'.Perm (List.range (reidx τ mw true).length) := by rw [reidx_length, hτl]; exact hperm'
+      apply List.ext_getElem?
+      intro a
+      by_cases ha : a < xs.length
+      · have hmem : a ∈ perm' := (hperm'.mem_iff).2 (List.mem_range.2 ha)
+        obtain ⟨j, hj, hja⟩ := List.mem_iff_getElem.1 hmem
+        have h1 := (unsort_bool perm' (reidx τ mw true) hpermw' j hj).2
+        rw [hja] at h1
+        have hjτ : j < τ.length := by omega
+        have hjρ : j < ρ.length := by omega
+        -- σ[a] = ρ[j] = perm[τ[j]]
+        have hρj : ρ[j] = σ[a]'(by omega) := by
+          subst hρdef
+          rw [List.getElem_map, hja, getD_lt σ 0 a (by omega)]
+        have hτj : τ[j] = perm.idxOf (σ[a]'(by omega)) := by
+          subst hτdef
+          rw [List.getElem_map, hρj]
+        have hσmem : σ[a]'(by omega) ∈ perm := by rw [← hρj]; exact hρmem _ (List.getElem_mem _)
+        have ht : perm.idxOf (σ[a]'(by omega)) < perm.length := List.idxOf_lt_length_of_mem hσmem
+        have h2 := (unsort_bool perm mw hpermw _ ht).2
+        rw [List.getElem_idxOf] at h2
+        rw [h1, List.getElem?_map, List.getElem?_eq_getElem (by omega : a < σ.length), Option.map_some,
+          List.getD_eq_getElem?_getD (l := unsort perm mw), h2,
+          List.getElem?_eq_getElem (by rw [reidx_length]; exact hjτ), ← getD_lt (reidx τ mw true) true j (by rw [reidx_length]; exact hjτ),
+          reidx_getD τ mw true true j hjτ, getD_lt τ 0 j hjτ, hτj, List.getD_eq_getElem?_getD]
+      · rw [List.getElem?_eq_none (by rw [(unsort_bool perm' _ hpermw' 0 (by omega)).1, reidx_length, hτl]; omega),
+          List.getElem?_eq_none (by rw [List.length_map, hσl]; omega)]
+
+/-! ## rejection limits -/
+
+local notation "iterBodyK" => @iterBody _ (fieldScalar _)
+local notation "iterLoopK" => @iterLoop _ (fieldScalar _)
+
+set_option linter.unusedTactic false in
+/-- **clear_outlier_rejected** (one pass; C17 `reject_mask` through `iterBody_spec`): in a pass whose fit has status 0,
+a point `j` that the mask still had (`maskwork[j] = True`) and whose scaled residual against the NEW curve,
+`(y_j - yfit_j) * sqrt(invvar_j)`, is below `-lower` or above `upper` (limits `≥ 0`), is False in the new mask -/
+theorem clear_outlier_rejected (Kn : Kernels K) (p : Params K) (xw yw iw : List K) (s s' : St K)
+    (h : iterBodyK Kn p xw yw iw s = .ok (.done s')) (h0 : s'.error = 0)
+    (hlo : ∀ lo, p.lower = some lo → 0 ≤ lo) (hup : ∀ up, p.upper = some up → 0 ≤ up)
+    (j : ℕ) (hj : j < yw.length) (hm : s.maskwork[j]? = some true)
+    (hout : (∃ lo, p.lower = some lo ∧ (yw.getD j 0 - s'.yfit.getD j 0) * Kn.sqrt (iw.getD j 0) < -lo) ∨
+            (∃ up, p.upper = some up ∧ up < (yw.getD j 0 - s'.yfit.getD j 0) * Kn.sqrt (iw.getD j 0))) :
+    s'.maskwork[j]? = some false := by
+  obtain ⟨out, _, _, _, herr, hyf, _, hcase⟩ := @iterBody_spec K (fieldScalar K) Kn p xw yw iw s s' h
+  rcases hcase with ⟨_, hr⟩ | ⟨hne, _, _⟩
+  swap
+  · exact absurd (herr.symm.trans h0) hne
+  rw [← hyf] at hr
+  unfold Reject.djsReject at hr
+  simp only [bind, Except.bind, pure, Except.pure, throw, throwThe, MonadExceptOf.throw] at hr
+  repeat' split at hr
+  all_goals first
+    | (cases hr; done)
+    | skip
+  injection hr with hr
+  have h1 := congrArg Prod.fst hr
+  simp only [] at h1
+  simp only [C08.sc_zero] at h1
+  obtain ⟨hlen, hiff⟩ := C17.reject_mask Kn.sqrt { rejectOpts p with hasIn := true }
+    ((List.range yw.length).map fun i =>
+      (⟨yw.getD i 0, s'.yfit.getD i 0, iw.getD i 0, s.maskwork.getD i true, s.maskwork.getD i true⟩ : Reject.Pix K))
+    hlo hup (fun md hmd => by cases hmd) (fun _ _ hu => by cases hu)
+  have h1' : (@Reject.djsRejectPix K (fieldScalar K) Kn.sqrt { rejectOpts p with hasIn := true }
+    ((List.range yw.length).map fun i =>
+      (⟨yw.getD i 0, s'.yfit.getD i 0, iw.getD i 0, s.maskwork.getD i true, s.maskwork.getD i true⟩ : Reject.Pix K))).1
+      = s'.maskwork := h1
+  rw [h1'] at hlen hiff
+  have hjp : j < ((List.range yw.length).map fun i =>
+      (⟨yw.getD i 0, s'.yfit.getD i 0, iw.getD i 0, s.maskwork.getD i true, s.maskwork.getD i true⟩ : Reject.Pix K)).length := by
+    simpa using hj
+  have hjm : j < s'.maskwork.length := by rw [hlen]; exact hjp
+  rw [List.getElem?_eq_getElem hjm]
+  cases hb : s'.maskwork[j] with
+  | false => rfl
+  | true =>
+    exfalso
+    obtain ⟨_, hnb⟩ := (hiff j hjp).1 (by rw [List.getElem?_eq_getElem hjm, hb])
+    apply hnb
+    refine ⟨j, hjp, Nat.le_add_right _ _, Nat.le_add_right _ _, ?_⟩
+    simp only [List.getElem_map, List.getElem_range]
+    have hinm : s.maskwork.getD j true = true := by rw [List.getD_eq_getElem?_getD, hm]; rfl
+    refine ⟨⟨fun _ => hinm, fun hst => by cases hst⟩, ?_⟩
+    rcases hout with ⟨lo, hl, hlt⟩ | ⟨up, hu, hgt⟩
+    · exact Or.inl ⟨lo, hl, hlt⟩
+    · exact Or.inr (Or.inl ⟨up, hu, hgt⟩)
+
+/-- **clear_outlier_rejected (whole loop)**: a point that is beyond a limit in SOME status-0 pass whose mask still had it
+is False in the mask the loop ends with (masks only decrease: `iterLoop_mask_le`) -/
+theorem clear_outlier_rejected_final (Kn : Kernels K) (p : Params K) (xw yw iw : List K) (s s' sf : St K) (fuel : ℕ)
+    (h : iterBodyK Kn p xw yw iw s = .ok (.done s')) (h0 : s'.error = 0)
+    (hlo : ∀ lo, p.lower = some lo → 0 ≤ lo) (hup : ∀ up, p.upper = some up → 0 ≤ up)
+    (hlen : s.maskwork.length = yw.length)
+    (j : ℕ) (hj : j < yw.length) (hm : s.maskwork[j]? = some true)
+    (hout : (∃ lo, p.lower = some lo ∧ (yw.getD j 0 - s'.yfit.getD j 0) * Kn.sqrt (iw.getD j 0) < -lo) ∨
+            (∃ up, p.upper = some up ∧ up < (yw.getD j 0 - s'.yfit.getD j 0) * Kn.sqrt (iw.getD j 0)))
+    (hloop : iterLoopK Kn p xw yw iw fuel s' = .ok (.done sf)) :
+    sf.maskwork[j]? = some false :=
+  @false_stays_false K (fieldScalar K) Kn p xw yw iw fuel s' sf j hloop
+    (@iterBody_mask_le K (fieldScalar K) Kn p xw yw iw s s' h hlen).1 hj
+    (clear_outlier_rejected Kn p xw yw iw s s' h h0 hlo hup j hj hm hout)
+
 end field
 
 /-! ## the hypotheses are satisfiable (non-vacuity) -/
@@ -510,5 +822,16 @@ example : ([2, 0, 1] : List ℕ).Perm (List.range 3) ∧ ([0, 2, 1] : List ℕ).
     (([0, 2, 1] : List ℕ).map (fun i => ([1, 3, 2] : List ℚ).getD i 0)).Pairwise (· < ·) ∧
     (([1, 0, 2] : List ℕ).map (fun i => (([2, 0, 1] : List ℕ).map (fun i => ([1, 3, 2] : List ℚ).getD i 0)).getD i 0)).Pairwise (· ≤ ·) := by
   refine ⟨by decide, by decide, by decide, by decide, by decide⟩
+
+/-- `iterfit_perm_ties`: x = (1, 2, 1) (a tie) with sorting permutation (2, 0, 1); permuted by σ = (2, 0, 1) to (1, 1, 2) with
+sorting permutation (1, 0, 2), which visits the two tied points in the other order (last conjunct: `perm` is NOT
+`perm'` read through `σ`; the sorted list is not strictly increasing, so `iterfit_perm` does not apply) -/
+example : ([2, 0, 1] : List ℕ).Perm (List.range 3) ∧ ([2, 0, 1] : List ℕ).Perm (List.range 3) ∧
+    ([1, 0, 2] : List ℕ).Perm (List.range 3) ∧
+    (([2, 0, 1] : List ℕ).map (fun i => ([1, 2, 1] : List ℚ).getD i 0)).Pairwise (· ≤ ·) ∧
+    (([1, 0, 2] : List ℕ).map (fun i => (([2, 0, 1] : List ℕ).map (fun i => ([1, 2, 1] : List ℚ).getD i 0)).getD i 0)).Pairwise (· ≤ ·) ∧
+    ¬ (([2, 0, 1] : List ℕ).map (fun i => ([1, 2, 1] : List ℚ).getD i 0)).Pairwise (· < ·) ∧
+    ([2, 0, 1] : List ℕ) ≠ ([1, 0, 2] : List ℕ).map (fun i => ([2, 0, 1] : List ℕ).getD i 0) := by
+  refine ⟨by decide, by decide, by decide, by decide, by decide, by decide, by decide⟩
 
 end PydlVerif.C10
